@@ -132,7 +132,120 @@ pub fn c17_duration_wrapper() {
     forget(r);
 }
 
+// ---- compound values (concrete shapes, symbolic scalar payloads); maps use the H1 model under Kani
+use cel_interpreter::objects::Key;
+use serde::ser::{SerializeMap, SerializeSeq};
+use std::sync::Arc;
+
+struct RepeatedKey(i64, i64);
+impl Serialize for RepeatedKey {
+    fn serialize<S: serde::Serializer>(&self, s: S) -> Result<S::Ok, S::Error> {
+        let mut m = s.serialize_map(Some(3))?;
+        m.serialize_entry("a", &self.0)?;
+        m.serialize_entry("b", &7i64)?;
+        m.serialize_entry("a", &self.1)?;
+        m.end()
+    }
+}
+fn key(s: &str) -> Key {
+    Key::String(Arc::new(s.to_string()))
+}
+/// a map entry stream that repeats a key: the last value wins (as in serde_json), nothing is lost
+pub fn c17_map_repeated_key() {
+    let (x, y): (i64, i64) = (any(), any());
+    let r = to_value(RepeatedKey(x, y));
+    match &r {
+        Ok(Value::Map(m)) => {
+            check!(m.map.len() == 2, "a repeated key yields one entry per distinct key");
+            check!(matches!(m.map.get(&key("a")), Some(Value::Int(v)) if *v == y), "for a repeated key the last value wins (as serde_json does)");
+            check!(matches!(m.map.get(&key("b")), Some(Value::Int(7))), "other entries are kept");
+        }
+        _ => check!(false, "a string-keyed map converts to a map"),
+    }
+    cover!(x != y, "distinct values for the repeated key reachable");
+    forget(r);
+}
+struct Two(i32, u16);
+impl Serialize for Two {
+    fn serialize<S: serde::Serializer>(&self, s: S) -> Result<S::Ok, S::Error> {
+        let mut q = s.serialize_seq(Some(2))?;
+        q.serialize_element(&self.0)?;
+        q.serialize_element(&self.1)?;
+        q.end()
+    }
+}
+#[derive(Serialize)]
+struct Pq {
+    p: i64,
+    q: bool,
+}
+/// sequences and tuples become lists in order; structs become maps keyed by field name
+pub fn c17_seq_tuple_struct() {
+    let (a, b): (i32, u16) = (any(), any());
+    let r = to_value(Two(a, b));
+    match &r {
+        Ok(Value::List(l)) => {
+            check!(l.len() == 2, "a sequence of two elements becomes a list of two");
+            check!(matches!(&l[0], Value::Int(v) if *v == a as i64) && matches!(&l[1], Value::UInt(v) if *v == b as u64), "list elements keep order, kind and number");
+        }
+        _ => check!(false, "a sequence converts to a list"),
+    }
+    let t = to_value((a, b));
+    check!(matches!(&t, Ok(Value::List(l)) if l.len() == 2 && matches!(&l[0], Value::Int(v) if *v == a as i64)), "a tuple converts to a list in order");
+    let (p, q): (i64, bool) = (any(), any());
+    let st = to_value(Pq { p, q });
+    match &st {
+        Ok(Value::Map(m)) => {
+            check!(m.map.len() == 2, "a struct becomes a map with one entry per field");
+            check!(matches!(m.map.get(&key("p")), Some(Value::Int(v)) if *v == p), "field p keeps its value");
+            check!(matches!(m.map.get(&key("q")), Some(Value::Bool(v)) if *v == q), "field q keeps its value");
+        }
+        _ => check!(false, "a struct converts to a map"),
+    }
+    cover!(a < 0 && q, "negative element and true field reachable");
+    forget((r, t, st));
+}
+/// a char becomes the one-character string (every UTF-8 length class)
+fn char_class(lo: u32, hi: u32) {
+    let u: u32 = any();
+    sym::assume(u >= lo && u <= hi);
+    let c = char::from_u32(u);
+    sym::assume(c.is_some());
+    let c = c.unwrap();
+    let r = to_value(c);
+    let mut want = [0u8; 4];
+    let w = c.encode_utf8(&mut want).len();
+    match &r {
+        Ok(Value::String(s)) => {
+            let b = s.as_bytes();
+            check!(b.len() == w, "char converts to a string of its UTF-8 length");
+            let mut i = 0;
+            let mut same = true;
+            while i < 4 {
+                if i < w && i < b.len() && b[i] != want[i] {
+                    same = false;
+                }
+                i += 1;
+            }
+            check!(same, "char converts to exactly its UTF-8 encoding");
+        }
+        _ => check!(false, "char converts to a string, never a panic"),
+    }
+    cover!(u == hi, "upper end of the class reachable");
+    forget(r);
+}
+pub fn c17_char_1_2_bytes() {
+    char_class(0, 0x7FF)
+}
+pub fn c17_char_3_4_bytes() {
+    char_class(0x800, 0x10FFFF)
+}
+
 crate::harnesses! {
+    #[kani::unwind(4)] c17_map_repeated_key: "quick", "ser::to_value -> Serializer::serialize_map, SerializeMap::serialize_key/serialize_value/end, KeySerializer::serialize_str (map = H1 model under Kani)", "entry stream a,b,a with symbolic i64 values";
+    #[kani::unwind(4)] c17_seq_tuple_struct: "quick", "ser::to_value -> serialize_seq/tuple/struct, SerializeVec, SerializeMap as SerializeStruct", "seq(2), tuple(2), struct{p,q}; all i32/u16/i64/bool payloads";
+    #[kani::unwind(6)] c17_char_1_2_bytes: "quick", "ser::to_value -> Serializer::serialize_char", "every char up to U+07FF";
+    #[kani::unwind(6)] c17_char_3_4_bytes: "quick", "ser::to_value -> Serializer::serialize_char", "every char from U+0800 (surrogates excluded)";
     #[kani::unwind(2)] c17_signed: "quick", "ser::to_value -> Serializer::serialize_i8/i16/i32/i64; Value::json; serde_json::to_value", "all values of i8, i16, i32, i64";
     #[kani::unwind(2)] c17_unsigned: "quick", "ser::to_value -> Serializer::serialize_u8/u16/u32/u64; Value::json", "all values of u8, u16, u32, u64";
     #[kani::unwind(2)] c17_floats_bool: "quick", "ser::to_value -> Serializer::serialize_f32/f64/bool; Value::json", "all f32 and f64 bit patterns, both bools";
